@@ -141,6 +141,8 @@ fn main() {
                 cmd.env("VERIF_SOFT_BUDGET_S", "1500");
             }
             if eng == "e3" {
+                // AddressSanitizer is ~4x slower: a quarter of the executions
+                cmd.env("VERIF_SCALE", (scale / 4).max(1).to_string());
                 cmd.env("ASAN_OPTIONS", "halt_on_error=1:abort_on_error=0:detect_leaks=0:max_allocation_size_mb=2048:exitcode=77");
             }
             match cmd.spawn() {
